@@ -443,6 +443,15 @@ example :
     ((tableDispatch "(?)".toList [sub]).map fun v => String.ofList (concretize .dollar (render .dollar v).segs))
       = some "(SELECT name FROM `users` WHERE age > $1)" := by decide
 
+/-- the alias forms (`tableRegexp`, `tableTarget`): `… AS u` anywhere (first one followed by end or comma), `name alias`,
+    nothing for a bare call expression; a name with arguments is an expression and has no target of its own -/
+example :
+    tableTarget "(?) AS u".toList 1 [] = some "u".toList ∧ tableTarget "users u".toList 0 [] = some "u".toList ∧
+    tableTarget "(?) as a, (?) as b".toList 2 [] = some "a".toList ∧ tableTarget "json_each(?)".toList 1 "prev".toList = some "prev".toList ∧
+    tableTarget "json_each(?)".toList 0 [] = some "json_each(?)".toList ∧ tableTarget "main.users".toList 0 [] = some "users".toList ∧
+    tableTarget "users AS u JOIN x".toList 0 [] = some [] ∧ tableTarget "a AS b AS c".toList 0 [] = some "c".toList ∧
+    tableTarget "x\nAS y".toList 0 [] = none := by decide
+
 /-! #### regenerated control-flow paths of every `args ...interface{}` / `...clause.Expression` function
     (extract/gen_c01_api.go → Gen/BindApi.lean) -/
 
